@@ -91,6 +91,9 @@ def apply(a, b, op):
             _nsrules(a)[op[1]].prefix = op[2]
         elif k == 'seltext':
             _strules(a)[op[1]].selectorText = SELECTORS[op[2]]
+        elif k == 'selobj':
+            # the text of the first selector object itself (the list keeps its objects)
+            _strules(a)[op[1]].selectorList[0].selectorText = SELECTORS[op[2]]
         elif k == 'selapp':
             _strules(a)[op[1]].selectorList.appendSelector(SELECTORS[op[2]])
         elif k == 'insrule':
@@ -141,6 +144,7 @@ def ops(a, b, tier):
     for j in range(nst):
         for si in range(len(SELECTORS)):
             yield ('seltext', j, si)
+            yield ('selobj', j, si)
         if _strules(a)[j].selectorList.length < maxsel:
             for si in (0, 1, 4, 5):
                 yield ('selapp', j, si)
@@ -288,7 +292,7 @@ def _only_unprefixed_differ(p1, p2):
         return False
 
 
-SELECTOR_EDITS = ('seltext', 'selapp', 'insrule', 'instext', 'text')
+SELECTOR_EDITS = ('seltext', 'selobj', 'selapp', 'insrule', 'instext', 'text')
 NAMESPACE_EDITS = ('nsset', 'nsdel', 'insns', 'addns', 'delns', 'prefix')
 
 
@@ -346,7 +350,7 @@ def step(res, hist, op, tier):
             if _prefixed_only(pa) != _prefixed_only(pb):
                 res.violation('C15.meaning-kept', f'{op[0]}|prefixed-name-denotes-other-pair', case, _prefixed_only(pa), _prefixed_only(pb), size=size)
         # a selector using an undeclared prefix is rejected
-        if op[0] in ('seltext', 'selapp', 'instext'):
+        if op[0] in ('seltext', 'selobj', 'selapp', 'instext'):
             res.clauses['C15.undeclared-prefix'] += 1
         # the effect of a mapping edit is the one asked for, and it touches @namespace rules only
         if op[0] in NAMESPACE_EDITS:
